@@ -209,6 +209,9 @@ func ValidateTokenExchangeRequest(
 	if err != nil {
 		return nil, nil, err
 	}
+	if !ValidateGrantType(client, oidc.GrantTypeTokenExchange) {
+		return nil, nil, oidc.ErrUnauthorizedClient().WithDescription("client missing grant type " + string(oidc.GrantTypeTokenExchange))
+	}
 
 	if oidcTokenExchangeRequest.RequestedTokenType != "" && !oidcTokenExchangeRequest.RequestedTokenType.IsSupported() {
 		return nil, nil, oidc.ErrInvalidRequest().WithDescription("requested_token_type is not supported")
